@@ -40,7 +40,15 @@ fn gen_stream(r: &mut Rng, span: u32, cancel_of: Option<&[Value]>, scale: f32) -
         if end <= pos {
             break;
         }
-        let value = if r.chance(1, 12) { 0.0 } else { *r.pick(DYADIC) * scale };
+        // scale 0 marks the mixed-magnitude class: integers around 2^24 next to small ones -- every f64 sum is still
+        // exact (so summation order cannot matter) but a running f32 sum rounds differently from "sum, then narrow"
+        let value = if r.chance(1, 12) {
+            0.0
+        } else if scale == 0.0 {
+            *r.pick(&[16_777_216.0f32, 1.0, 1.0, 2.0, 3.0, -16_777_216.0, 33_554_432.0, 0.5, 1.0e8, -1.0e8])
+        } else {
+            *r.pick(DYADIC) * scale
+        };
         v.push(Value { start: pos, end, value });
         let gap = match r.below(8) {
             0 => 0,
@@ -59,7 +67,11 @@ pub fn c15m(ctx: &Ctx, begin: &mut dyn FnMut(J)) -> Outcome {
     let k = r.range(1, 6) as usize;
     // one case in five uses the same dyadic values scaled by 2^-64 (p-value-like magnitudes, sums still exact):
     // "equal" and "zero" must mean exactly that, not "closer than some epsilon"
-    let scale: f32 = if r.chance(1, 5) { f32::from_bits((127 - 64) << 23) } else { 1.0 };
+    let scale: f32 = match r.below(10) {
+        0 | 1 => f32::from_bits((127 - 64) << 23),
+        2 | 3 => 0.0,
+        _ => 1.0,
+    };
     let mut streams: Vec<Vec<Value>> = vec![];
     for i in 0..k {
         let s = if i > 0 && r.chance(1, 5) { gen_stream(&mut r, span, Some(&streams[i - 1].clone()), scale) } else { gen_stream(&mut r, span, None, scale) };
@@ -155,7 +167,13 @@ pub fn c15m(ctx: &Ctx, begin: &mut dyn FnMut(J)) -> Outcome {
     if streams.iter().any(|s| s.first().map(|v| v.start == 0).unwrap_or(false)) {
         out.tag("starts_at_base_0");
     }
-    out.tag(if scale == 1.0 { "magnitude:unit" } else { "magnitude:2^-64" });
+    out.tag(if scale == 1.0 {
+        "magnitude:unit"
+    } else if scale == 0.0 {
+        "magnitude:mixed_2^24_and_small"
+    } else {
+        "magnitude:2^-64"
+    });
     out
 }
 
